@@ -30,7 +30,10 @@ def productions(prog):
             continue
         body = by_name.get(name + '::{closure#2}')
         simple = strip_generics(name).split('::')[-1]
-        if body is not None and body.argnorm and body.argnorm[0].startswith('&closure@'):
+        if body is not None and len(body.argnorm) == 1 and body.argnorm[0].startswith('&closure@') and \
+                ') -> Result<(LocatedSpan<&str, SpanInfo>, ' in body.header:
+            # (an un-annotated function whose own body holds three closures also has a {closure#2}: that one takes arguments
+            # and does not return an IResult)
             # #[packrat_parser] applied twice wraps the body twice
             while True:
                 deeper = by_name.get(body.name + '::{closure#2}')
@@ -79,7 +82,7 @@ def callees_text(prog, entry):
 _PRODS = None
 
 
-def is_nullable(name, info, nonnullable, hard_failing=(), summaries=None, time_cap=20):
+def is_nullable(name, info, nonnullable, hard_failing=(), summaries=None, time_cap=20, garbage=None):
     """can the production succeed without consuming?  paths are abandoned as soon as they provably consumed input,
     so the exploration is small and complete.  Returns True / False / None (budget exhausted)"""
     P = E.prog()
@@ -103,7 +106,13 @@ def is_nullable(name, info, nonnullable, hard_failing=(), summaries=None, time_c
         it.env['span_returning'] = SPAN_RETURNING
         p_in = z3.Int('p_in')
         it.assume(z3.And(p_in >= 0, p_in <= G.TOTAL))
-        it.env['nullability_mode'] = True
+        if garbage is None:
+            it.env['nullability_mode'] = True
+        else:
+            # garbage-first mode: can the body succeed having consumed a byte that starts no token?  (see gengine.at_garbage)
+            it.env['garbage_mode'] = True
+            it.env['garbage_consuming'] = garbage
+            it.assume(p_in < G.TOTAL)
         it.env['p_in'] = p_in
         sp = G.span(p_in)
         try:
@@ -120,10 +129,12 @@ def is_nullable(name, info, nonnullable, hard_failing=(), summaries=None, time_c
             else:
                 r = it.run_func(f, [sp])
         except G.Consumed:
-            return False
+            return garbage is not None
         r = it.concretize(r)
         if r.variant != 'Ok':
             return False
+        if garbage is not None:
+            return bool(it.feasible(r.fields[0].fields[0].data['off'] != p_in))
         return bool(it.feasible(r.fields[0].fields[0].data['off'] == p_in))
     ex = Explorer(P, mdl, run, max_paths=6000, step_limit=600_000)
     ex.deadline = time.time() + time_cap
